@@ -410,3 +410,228 @@ Proof.
       * constructor; [rewrite app_length; simpl; lia|rewrite app_length; simpl; lia|].
         apply Forall_app. split; [assumption|]. constructor; [assumption|constructor].
 Qed.
+
+Lemma split_inner_props : forall v ks' cs', 1 <= v -> wf v (Inner ks' cs') -> length cs' = 2 * v ->
+  let l := Inner (firstn (v - 1) ks') (firstn v cs') in
+  let r := Inner (skipn v ks') (skipn v cs') in
+  flat (Inner ks' cs') = flat l ++ IK (nth (v - 1) ks' 0%N) :: flat r /\ wf v l /\ wf v r /\
+  height l <= height (Inner ks' cs') /\ height r <= height (Inner ks' cs').
+Proof.
+  intros v ks' cs' Hv Hwf Hcs'. inversion Hwf as [|? ? Hlen' Hmax' Hall']; subst. cbv zeta.
+  split; [|split; [|split; [|split]]].
+  - simpl. rewrite <- firstn_map, <- skipn_map. apply weave_split; rewrite ?map_length; lia.
+  - constructor; [rewrite !firstn_length; lia|rewrite firstn_length; lia|apply forall_firstn; assumption].
+  - constructor; [rewrite !skipn_length; lia|rewrite skipn_length; lia|apply forall_skipn; assumption].
+  - simpl. apply le_n_S. apply list_max_incl. intros x Hx. apply in_map_iff in Hx. destruct Hx as (y & <- & Hy).
+    apply in_map. rewrite <- (firstn_skipn v cs'). apply in_or_app. left. exact Hy.
+  - simpl. apply le_n_S. apply list_max_incl. intros x Hx. apply in_map_iff in Hx. destruct Hx as (y & <- & Hy).
+    apply in_map. rewrite <- (firstn_skipn v cs'). apply in_or_app. right. exact Hy.
+Qed.
+
+(** btree.insert (root split included) on the flattening *)
+Lemma bt_insert_flat : forall bsz v ng root, 2 <= bsz -> 2 <= v -> wf v root ->
+  Forall (item_le ng) (flat root) ->
+  flat (bt_insert bsz v root ng) = flat_ins bsz ng (flat root) /\ wf v (bt_insert bsz v root ng).
+Proof.
+  intros bsz v ng root Hbsz Hv Hwf Hle. unfold bt_insert.
+  destruct (maybe_split bsz v root) as [[[l r] k]|] eqn:Esp.
+  - destruct root as [bs sk|ks cs].
+    + cbn [maybe_split] in Esp. destruct (bs <? bsz) eqn:E; [discriminate|]. injection Esp as <- <- <-.
+      change (fst (Nat.divmod bsz 1 0 1)) with (bsz / 2).
+      inversion Hle as [|? ? Hsk _]; subst. simpl in Hsk.
+      destruct (insert_flat bsz v ng ltac:(lia) ltac:(lia) (S (height (Inner [sk] [Leaf (bsz / 2) 0%N; Leaf (bsz / 2) 0%N])))
+                  (Inner [sk] [Leaf (bsz / 2) 0%N; Leaf (bsz / 2) 0%N])) as [Hfl Hw].
+      * constructor; [reflexivity|simpl; lia|repeat constructor].
+      * lia.
+      * cbn [maybe_split length]. replace (2 <? 2 * v) with true by (symmetry; apply Nat.ltb_lt; lia). reflexivity.
+      * cbn [flat weave map app]. repeat constructor; simpl; auto; lia.
+      * split; [|exact Hw]. rewrite Hfl. cbn [flat weave map app flat_ins]. unfold ins_last. rewrite E.
+        replace (bsz / 2 <? bsz) with true by (symmetry; apply Nat.ltb_lt; apply Nat.div_lt; lia).
+        replace (Nat.eqb (S (bsz / 2)) (bsz / 2 + 1)) with true by (symmetry; apply Nat.eqb_eq; lia). reflexivity.
+    + cbn [maybe_split] in Esp. destruct (length cs <? 2 * v) eqn:E; [discriminate|]. injection Esp as <- <- <-.
+      inversion Hwf as [|? ? Hlen Hmax Hall]; subst.
+      assert (Hcs : length cs = 2 * v) by lia.
+      destruct (split_inner_props v ks cs ltac:(lia) Hwf Hcs) as (Hsplit & Hwl & Hwr & _ & _).
+      set (l := Inner (firstn (v - 1) ks) (firstn v cs)) in *. set (r := Inner (skipn v ks) (skipn v cs)) in *.
+      set (k := nth (v - 1) ks 0%N) in *.
+      assert (Hflat' : flat (Inner [k] [l; r]) = flat (Inner ks cs)).
+      { rewrite Hsplit. cbn [flat weave map]. destruct (map flat [r]) eqn:Em; [discriminate|]. reflexivity. }
+      destruct (insert_flat bsz v ng ltac:(lia) ltac:(lia) (S (height (Inner [k] [l; r]))) (Inner [k] [l; r])) as [Hfl Hw].
+      * constructor; [reflexivity|simpl; lia|constructor; [assumption|constructor; [assumption|constructor]]].
+      * lia.
+      * cbn [maybe_split length]. replace (2 <? 2 * v) with true by (symmetry; apply Nat.ltb_lt; lia). reflexivity.
+      * rewrite Hflat'. exact Hle.
+      * split; [|exact Hw]. rewrite Hfl, Hflat'. reflexivity.
+  - apply insert_flat; auto; lia.
+Qed.
+
+(* ------------------------------------------------------------------ 3. the flattening after ascending inserts *)
+
+(** keys strictly ascending (index form) *)
+Definition asc (gs : list N) : Prop := forall i j, i < j < length gs -> (nth i gs 0 < nth j gs 0)%N.
+
+(** [shape half fl gs]: fl is the flattening after inserting gs (ascending) with bucketSize = 2*half:
+    runs of exactly [half] keys, each followed by the first key of the rest, and a last run of 1..2*half keys
+    (0 only for the empty tree) whose split key is its (half+1)-th key once it has one. *)
+Inductive shape (half : nat) : list item -> list N -> Prop :=
+| sh_last : forall n sk gs, n = length gs -> n <= 2 * half ->
+    (half < n -> sk = nth half gs 0%N) -> (n <= half -> sk = 0%N) -> shape half [IL n sk] gs
+| sh_cons : forall k fl g1 gs', length g1 = half -> k = nth 0 gs' 0%N -> half < length gs' ->
+    shape half fl gs' -> shape half (IL half 0%N :: IK k :: fl) (g1 ++ gs').
+
+Lemma shape_nonempty : forall half fl gs, shape half fl gs -> fl <> [].
+Proof. intros half fl gs H; inversion H; discriminate. Qed.
+
+Lemma shape_ins : forall half fl gs g, 1 <= half -> shape half fl gs ->
+  shape half (flat_ins (2 * half) g fl) (gs ++ [g]).
+Proof.
+  intros half fl gs g Hh H. induction H as [n sk gs Hn Hmax Hsk Hsk0|k fl g1 gs' Hg1 Hk Hlen Hsh IH].
+  - cbn [flat_ins]. unfold ins_last. replace (2 * half / 2) with half by (rewrite Nat.mul_comm, Nat.div_mul; lia).
+    destruct (n <? 2 * half) eqn:E.
+    + apply Nat.ltb_lt in E. constructor.
+      * rewrite app_length. simpl. lia.
+      * lia.
+      * intros Hlt. destruct (Nat.eqb (S n) (half + 1)) eqn:E2.
+        -- apply Nat.eqb_eq in E2. assert (half = length gs) by lia. subst half.
+           rewrite app_nth2 by lia. rewrite Nat.sub_diag. reflexivity.
+        -- apply Nat.eqb_neq in E2. rewrite app_nth1 by lia. apply Hsk. lia.
+      * intros Hle. destruct (Nat.eqb (S n) (half + 1)) eqn:E2; [apply Nat.eqb_eq in E2; lia|]. apply Hsk0. lia.
+    + apply Nat.ltb_ge in E. assert (n = 2 * half) by lia.
+      rewrite <- (firstn_skipn half gs). rewrite <- app_assoc.
+      assert (Hf : length (firstn half gs) = half) by (rewrite firstn_length; lia).
+      assert (Hs : length (skipn half gs) = half) by (rewrite skipn_length; lia).
+      rewrite Hsk by lia.
+      constructor; auto.
+      * rewrite app_nth1 by lia. rewrite <- (firstn_skipn half gs) at 1. rewrite app_nth2 by lia. rewrite Hf, Nat.sub_diag. reflexivity.
+      * rewrite app_length. simpl. lia.
+      * constructor.
+        -- rewrite app_length. simpl. lia.
+        -- lia.
+        -- intros _. rewrite app_nth2 by lia. rewrite Hs, Nat.sub_diag. reflexivity.
+        -- lia.
+  - rewrite flat_ins_cons by discriminate. rewrite flat_ins_cons by (intro Hx; eapply shape_nonempty; [exact Hsh|];
+       destruct fl; [reflexivity|]; exfalso; destruct i; destruct fl; simpl in Hx; try discriminate;
+       unfold ins_last in Hx; destruct (bs <? 2 * half); discriminate).
+    rewrite <- app_assoc. constructor; auto.
+    + rewrite app_nth1 by lia. exact Hk.
+    + rewrite app_length. lia.
+Qed.
+
+Lemma asc_app_r : forall g1 gs', asc (g1 ++ gs') -> asc gs'.
+Proof.
+  intros g1 gs' H i j Hij. specialize (H (length g1 + i) (length g1 + j)).
+  rewrite !app_nth2 in H by lia. replace (length g1 + i - length g1) with i in H by lia.
+  replace (length g1 + j - length g1) with j in H by lia. apply H. rewrite app_length. lia.
+Qed.
+
+Lemma asc_first_le : forall gs x, asc gs -> In x gs -> (nth 0 gs 0 <= x)%N.
+Proof.
+  intros gs x H Hin. destruct (In_nth gs x 0%N Hin) as (i & Hi & <-).
+  destruct i; [lia|]. specialize (H 0 (S i) ltac:(lia)). lia.
+Qed.
+
+Lemma asc_snoc_lt : forall gs g x, asc (gs ++ [g]) -> In x gs -> (x < g)%N.
+Proof.
+  intros gs g x H Hin. destruct (In_nth gs x 0%N Hin) as (i & Hi & <-).
+  specialize (H i (length gs)). rewrite app_nth1, app_nth2, Nat.sub_diag in H by lia. simpl in H.
+  apply H. rewrite app_length. simpl. lia.
+Qed.
+
+Lemma shape_keys_in : forall half fl gs, shape half fl gs -> Forall (fun k => In k gs) (keys_of fl).
+Proof.
+  intros half fl gs H. induction H as [n sk gs Hn Hmax Hsk Hsk0|k fl g1 gs' Hg1 Hk Hlen Hsh IH].
+  - constructor.
+  - cbn [keys_of flat_map app]. constructor.
+    + apply in_or_app. right. subst k. apply nth_In. lia.
+    + rewrite Forall_forall in *. intros x Hx. apply in_or_app. right. apply IH. exact Hx.
+Qed.
+
+Lemma shape_ksorted : forall half fl gs, shape half fl gs -> asc gs -> ksorted fl.
+Proof.
+  intros half fl gs H. induction H as [n sk gs Hn Hmax Hsk Hsk0|k fl g1 gs' Hg1 Hk Hlen Hsh IH]; intros Ha.
+  - constructor.
+  - unfold ksorted. cbn [keys_of flat_map app]. pose proof (asc_app_r _ _ Ha) as Ha'. constructor.
+    + apply IH. exact Ha'.
+    + pose proof (shape_keys_in _ _ _ Hsh) as Hin. rewrite Forall_forall in *. intros x Hx.
+      subst k. apply asc_first_le; auto.
+Qed.
+
+Lemma shape_item_le : forall half fl gs g, shape half fl gs -> (forall x, In x gs -> (x <= g)%N) ->
+  Forall (item_le g) fl.
+Proof.
+  intros half fl gs g H. induction H as [n sk gs Hn Hmax Hsk Hsk0|k fl g1 gs' Hg1 Hk Hlen Hsh IH]; intros Hall.
+  - constructor; [|constructor]. simpl. destruct (Nat.lt_ge_cases half n) as [Hlt|Hge].
+    + rewrite Hsk by exact Hlt. apply Hall. apply nth_In. lia.
+    + rewrite Hsk0 by exact Hge. lia.
+  - constructor; [simpl; lia|]. constructor.
+    + simpl. apply Hall. apply in_or_app. right. subst k. apply nth_In. lia.
+    + apply IH. intros x Hx. apply Hall. apply in_or_app. right. exact Hx.
+Qed.
+
+Lemma shape_locate : forall half fl gs, shape half fl gs -> asc gs -> forall p, p < length gs ->
+  let '(j, po) := locate fl (nth p gs 0%N) in
+  po = j * half /\ j * half <= p /\ (S j = nL fl \/ p < S j * half).
+Proof.
+  intros half fl gs H. induction H as [n sk gs Hn Hmax Hsk Hsk0|k fl g1 gs' Hg1 Hk Hlen Hsh IH]; intros Ha p Hp.
+  - simpl. repeat split; try lia.
+  - cbn [locate]. pose proof (asc_app_r _ _ Ha) as Ha'. rewrite app_length in Hp.
+    destruct (Nat.lt_ge_cases p half) as [Hlt|Hge].
+    + assert (Hk' : (nth p (g1 ++ gs') 0 < k)%N).
+      { subst k. replace (nth 0 gs' 0%N) with (nth half (g1 ++ gs') 0%N) by (rewrite app_nth2 by lia; rewrite Hg1, Nat.sub_diag; reflexivity).
+        apply Ha. rewrite app_length. lia. }
+      replace (nth p (g1 ++ gs') 0 <? k)%N with true by lia.
+      repeat split; try lia.
+    + rewrite app_nth2 by lia. rewrite Hg1.
+      assert (Hk' : (k <= nth (p - half) gs' 0)%N).
+      { subst k. destruct (p - half) eqn:E; [lia|]. specialize (Ha' 0 (S n) ltac:(lia)). lia. }
+      replace (nth (p - half) gs' 0 <? k)%N with false by lia.
+      specialize (IH Ha' (p - half) ltac:(lia)).
+      destruct (locate fl (nth (p - half) gs' 0%N)) as [a b]. destruct IH as (E1 & E2 & E3).
+      cbn [nL]. repeat split; try lia.
+Qed.
+
+(** the tree built by newBtreeIndex from an ascending ngram list *)
+Lemma build_shape : forall half v gs, 1 <= half -> 2 <= v -> asc gs ->
+  shape half (flat (bt_build (2 * half) v gs)) gs /\ wf v (bt_build (2 * half) v gs).
+Proof.
+  intros half v gs Hh Hv. induction gs as [|g gs IH] using rev_ind; intros Ha.
+  - split; [|constructor]. simpl. constructor; simpl; try lia; intros; reflexivity.
+  - unfold bt_build in *. rewrite fold_left_app. cbn [fold_left].
+    assert (Ha0 : asc gs).
+    { intros i j Hij. specialize (Ha i j). rewrite !app_nth1 in Ha by lia. apply Ha. rewrite app_length. simpl. lia. }
+    destruct (IH Ha0) as [Hsh Hwf].
+    destruct (bt_insert_flat (2 * half) v g _ ltac:(lia) Hv Hwf) as [Hfl Hwf'].
+    + apply (shape_item_le half _ gs); auto. intros x Hx. pose proof (asc_snoc_lt _ _ _ Ha Hx). lia.
+    + split; [|exact Hwf']. rewrite Hfl. apply shape_ins; auto.
+Qed.
+
+(** [find] returns the bucket that holds the key: with half = bucketSize/2, the key at position p of the
+    ascending list is found in bucket j, whose first key has position j*half (= postingIndexOffset); every
+    bucket but the last holds exactly half keys (p < (j+1)*half), the last one holds the rest. *)
+Theorem btree_find_spec : forall half v gs p, 1 <= half -> 2 <= v -> asc gs -> p < length gs ->
+  let t := bt_build (2 * half) v gs in
+  let '(j, po) := find t (nth p gs 0%N) in
+  po = j * half /\ j * half <= p /\ (S j = nleaves t \/ p < S j * half).
+Proof.
+  intros half v gs p Hh Hv Ha Hp. cbv zeta.
+  destruct (build_shape half v gs Hh Hv Ha) as [Hsh Hwf].
+  rewrite (find_locate v) by (auto; eapply shape_ksorted; eauto).
+  pose proof (shape_locate _ _ _ Hsh Ha p Hp) as H.
+  destruct (locate (flat (bt_build (2 * half) v gs)) (nth p gs 0%N)) as [j po].
+  destruct (flat_counts (bt_build (2 * half) v gs)) as [E _]. rewrite <- E. exact H.
+Qed.
+
+(** number of buckets and their total size *)
+Lemma shape_counts : forall half fl gs, shape half fl gs -> szL fl = length gs.
+Proof.
+  intros half fl gs H. induction H as [n sk gs Hn Hmax Hsk Hsk0|k fl g1 gs' Hg1 Hk Hlen Hsh IH].
+  - simpl. lia.
+  - cbn [szL]. rewrite app_length. lia.
+Qed.
+
+Theorem btree_sizes_spec : forall half v gs, 1 <= half -> 2 <= v -> asc gs ->
+  nsizes (bt_build (2 * half) v gs) = length gs.
+Proof.
+  intros half v gs Hh Hv Ha. destruct (build_shape half v gs Hh Hv Ha) as [Hsh _].
+  destruct (flat_counts (bt_build (2 * half) v gs)) as [_ E]. rewrite <- E. eapply shape_counts; eauto.
+Qed.
